@@ -24,6 +24,12 @@ def run(rep, tier, seed, replay):
     for r in rejections:
         if r["run_head"].get("p") == "unsafe":
             rep.violation({"check": "trace-rejected", "proto": "unsafe", "op": r["event"].get("op", "")}, r)
+    # message envelopes and type bytes through the unchecked reader / writer (TLC wire cases of spec/MCWire.tla)
+    wsum, wmism, _, _ = rt.drive_wire(tier)
+    for m in wmism:
+        if m.get("proto") == "unsafe":
+            rep.violation({"check": m["check"], "proto": "unsafe", "kind": "wire"}, m)
+    stats["wire"] = wsum
     sk = rt.skip_trace_check(rep, tier, seed + 100, vsets=("universe",))
     import json
     for r in crashed:
